@@ -216,7 +216,7 @@ def flt(m, n, op, val, **kw):
 def conds(tier):
     q = tier == "quick"
     cs = []
-    shapes = [(1, 2), (2, 2), (2, 3), (3, 3)] if q else [(1, 2), (2, 2), (2, 3), (3, 3), (3, 4), (4, 4)]
+    shapes = [(1, 2), (2, 2), (2, 3), (3, 3)] if q else [(1, 2), (2, 2), (2, 3), (3, 3), (4, 3)]
     for (m, n) in shapes:
         cs.append(Cond("delete-m%d-n%d" % (m, n), "harness.c11:delete", e1_params(m, n) + [P("i", "int", 0, n)],
                        fixed={"m": m, "n": n}, pre=[e1_wf_expr(m, n)], shard=(["lp1"] if m * n > 12 else []),
@@ -225,7 +225,7 @@ def conds(tier):
         cs.append(Cond("punctdel-m%d-n%d" % (m, n), "harness.c11:punctdel", e1_params(m, n) + ws + [P("quiet", "bool")],
                        fixed={"m": m, "n": n}, pre=[e1_wf_expr(m, n)], shard=["quiet"] + (["w1"] if m * n >= 9 else []) +
                        (["lp1"] if m * n >= 12 else []), timeout=400 if q else 2400, functions=FUNCS[:2]))
-    for (m, n) in ([(1, 2), (1, 3), (2, 2)] if q else [(1, 3), (2, 2), (2, 3), (3, 3)]):
+    for (m, n) in ([(1, 2), (1, 3), (2, 2)] if q else [(1, 3), (2, 2), (2, 3)]):
         ks = [P("k%d" % j, "int", 0, 4) for j in range(1, n + 1)]
         cl = [P("c%d" % i, "int", 0, 4) for i in range(1, m)]
         cs.append(Cond("traces-m%d-n%d" % (m, n), "harness.c11:traces",
@@ -242,7 +242,7 @@ def conds(tier):
         cs.append(Cond("edit1-m%d-n%d" % (m, n), "harness.c11:edits", e1_params(m, n) + base,
                        fixed={"m": m, "n": n, "two": False, "sid2": 1, "idx2": 0}, pre=[e1_wf_expr(m, n)],
                        shard=["op", "quiet"], timeout=400 if q else 2400, functions=FUNCS[3:5]))
-        if not q or (m, n) == (1, 2):
+        if (not q and m * n <= 6) or (m, n) == (1, 2):
             cs.append(Cond("edit2-m%d-n%d" % (m, n), "harness.c11:edits",
                            e1_params(m, n) + base + [P("sid2", "int", 1, 3), P("idx2", "int", 0, n + 4)],
                            fixed={"m": m, "n": n, "two": True}, pre=[e1_wf_expr(m, n)], shard=["op", "quiet", "sid1"],
